@@ -17,4 +17,22 @@ unsigned g_n;
 #define F_GOK 1
 #define F_HASREV 1
 #include "scalar/split_family.h"
+
+#define SF_BND(m, k) (spec_splitfull_len(m) == (k))
+static inline uint8_t sf_len_(uint64_t v) { uint8_t n; varintSplitFullLength_(n, v); return n; }
+W_REL0(w_splitfullConstants, {
+    return sf_len_(VARINT_SPLIT_FULL_STORAGE_1) == 1 && sf_len_(VARINT_SPLIT_FULL_STORAGE_1 + 1ULL) == 2 &&
+           sf_len_(VARINT_SPLIT_FULL_STORAGE_2) == 2 && sf_len_(VARINT_SPLIT_FULL_STORAGE_2 + 1ULL) == 3 &&
+           sf_len_(VARINT_SPLIT_FULL_STORAGE_3) == 3 &&
+           sf_len_(VARINT_SPLIT_FULL_STORAGE_4) == 4 && sf_len_(VARINT_SPLIT_FULL_STORAGE_4 + 1ULL) == 5 &&
+           sf_len_(VARINT_SPLIT_FULL_STORAGE_5) == 5 && sf_len_(VARINT_SPLIT_FULL_STORAGE_5 + 1ULL) == 6 &&
+           sf_len_(VARINT_SPLIT_FULL_STORAGE_6) == 6 && sf_len_(VARINT_SPLIT_FULL_STORAGE_6 + 1ULL) == 7 &&
+           sf_len_(VARINT_SPLIT_FULL_STORAGE_7) == 7 && sf_len_(VARINT_SPLIT_FULL_STORAGE_7 + 1ULL) == 8 &&
+           sf_len_(VARINT_SPLIT_FULL_STORAGE_8) == 8 && sf_len_(VARINT_SPLIT_FULL_STORAGE_8 + 1ULL) == 9 &&
+           sf_len_(VARINT_SPLIT_FULL_STORAGE_9) == 9 &&
+           VARINT_SPLIT_FULL_STORAGE_1 == 63 && VARINT_SPLIT_FULL_STORAGE_2 == 16446 && VARINT_SPLIT_FULL_STORAGE_3 == 4210749 &&
+           VARINT_SPLIT_FULL_STORAGE_4 == 20987964ULL && VARINT_SPLIT_FULL_STORAGE_5 == 4299178044ULL;
+})
+H_REL0(H_splitfullConstants, w_splitfullConstants)
+
 RP_MAIN()
